@@ -6,6 +6,7 @@
 #include <string.h>
 #include <unistd.h>
 
+#include <atomic>
 #include <set>
 #include <vector>
 
@@ -25,11 +26,18 @@ sim::DirSimConfig g_cfg;
 int g_handles = 0;
 
 template <class F>
-F real(const char* name) {
-    void* p = dlsym(RTLD_NEXT, name);
-    if (!p) _exit(13);
+F resolve(std::atomic<void*>& slot, const char* name) {  // no guarded function-local statics in seam code (see detsim.cpp)
+    void* p = slot.load(std::memory_order_acquire);
+    if (!p) {
+        p = dlsym(RTLD_NEXT, name);
+        if (!p) _exit(13);
+        slot.store(p, std::memory_order_release);
+    }
     return reinterpret_cast<F>(p);
 }
+#define RESOLVE(var, type, name)                  \
+    static std::atomic<void*> slot_##var{nullptr}; \
+    auto var = resolve<type>(slot_##var, name)
 }  // namespace
 
 namespace sim {
@@ -41,9 +49,9 @@ void reset_handle_count() { g_handles = 0; }
 extern "C" {
 
 DIR* opendir(const char* name) {
-    static auto r_opendir = real<DIR* (*)(const char*)>("opendir");
-    static auto r_readdir = real<dirent* (*)(DIR*)>("readdir");
-    static auto r_closedir = real<int (*)(DIR*)>("closedir");
+    RESOLVE(r_opendir, DIR* (*)(const char*), "opendir");
+    RESOLVE(r_readdir, dirent* (*)(DIR*), "readdir");
+    RESOLVE(r_closedir, int (*)(DIR*), "closedir");
     if (!sim::active() || !g_cfg.enabled) return r_opendir(name);
     DIR* d = r_opendir(name);
     if (!d) return nullptr;
@@ -65,7 +73,7 @@ DIR* opendir(const char* name) {
 }
 
 struct dirent* readdir(DIR* d) {
-    static auto r_readdir = real<dirent* (*)(DIR*)>("readdir");
+    RESOLVE(r_readdir, dirent* (*)(DIR*), "readdir");
     auto* f = reinterpret_cast<FakeDir*>(d);
     if (!g_fake.count(f)) return r_readdir(d);
     if (f->pos >= f->ents.size()) return nullptr;
@@ -77,7 +85,7 @@ struct dirent* readdir(DIR* d) {
 struct dirent64* readdir64(DIR* d) { return reinterpret_cast<dirent64*>(readdir(d)); }
 
 int closedir(DIR* d) {
-    static auto r_closedir = real<int (*)(DIR*)>("closedir");
+    RESOLVE(r_closedir, int (*)(DIR*), "closedir");
     auto* f = reinterpret_cast<FakeDir*>(d);
     if (!g_fake.count(f)) return r_closedir(d);
     g_fake.erase(f);
@@ -87,19 +95,19 @@ int closedir(DIR* d) {
 }
 
 FILE* fopen(const char* path, const char* mode) {
-    static auto r_fopen = real<FILE* (*)(const char*, const char*)>("fopen");
+    RESOLVE(r_fopen, FILE* (*)(const char*, const char*), "fopen");
     FILE* f = r_fopen(path, mode);
     if (f && sim::active() && g_cfg.enabled) g_handles++;
     return f;
 }
 FILE* fopen64(const char* path, const char* mode) {
-    static auto r_fopen = real<FILE* (*)(const char*, const char*)>("fopen64");
+    RESOLVE(r_fopen, FILE* (*)(const char*, const char*), "fopen64");
     FILE* f = r_fopen(path, mode);
     if (f && sim::active() && g_cfg.enabled) g_handles++;
     return f;
 }
 int fclose(FILE* f) {
-    static auto r_fclose = real<int (*)(FILE*)>("fclose");
+    RESOLVE(r_fclose, int (*)(FILE*), "fclose");
     if (sim::active() && g_cfg.enabled) g_handles--;
     return r_fclose(f);
 }
